@@ -486,7 +486,60 @@ def mon_disconnect(run):
     return bad
 
 
+def mon_orderings(run, ords):
+    """C07: the ordering arguments the signal's atomics receive at run time are among those the extractor
+    read from signal.rs (so the Lean signal model is instantiated with what really executes)."""
+    allowed = {"load": set(), "store": set(), "cas": set(), "fence": set()}
+    for fn in ("signal_wake", "signal_wait", "signal_wait_timeout", "signal_poll", "signal_async_blocking_wait", "signal_is_terminated"):
+        for kind, os_ in ords.get(fn, []):
+            if kind in allowed:
+                allowed[kind].add(tuple(os_))
+    bad = []
+    for i, (tid, kind, args) in enumerate(run.events):
+        if kind == "ld" and (args[1],) not in allowed["load"]:
+            bad.append(f"event {i}: load of a signal with ordering {args[1]} not in the source as extracted {sorted(allowed['load'])}")
+        elif kind == "st" and (args[1],) not in allowed["store"]:
+            bad.append(f"event {i}: store to a signal with ordering {args[1]} not in the source as extracted {sorted(allowed['store'])}")
+        elif kind == "cas" and (args[1], args[2]) not in allowed["cas"]:
+            bad.append(f"event {i}: CAS on a signal with orderings {args[1:3]} not in the source as extracted {sorted(allowed['cas'])}")
+        elif kind == "fence" and (args[0],) not in allowed["fence"]:
+            bad.append(f"event {i}: fence {args[0]} not in the source as extracted {sorted(allowed['fence'])}")
+    return bad[:3]
+
+
+def mon_peer_protocol(run):
+    """C07: per signal address, the peer (any thread other than the one that ends the signal's life) accesses
+    the payload before its final store / successful CAS and never touches the signal's state word afterwards;
+    the owner ends the signal's life only after the state is final (or it was never shared)."""
+    bad = []
+    life = {}     # addr -> dict(final_at, final_by, owner)
+    for i, (tid, kind, args) in enumerate(run.events):
+        if kind in ("ld", "st", "cas"):
+            a = args[0]
+            L = life.setdefault(a, {"final_at": None, "final_by": None, "touch": []})
+            if kind == "st" and args[2] in ("0", "1"):
+                if L["final_at"] is not None:
+                    bad.append(f"event {i}: second final store on {a}")
+                L["final_at"], L["final_by"] = i, tid
+            elif kind == "cas" and args[5] == "ok" and args[4] in ("0", "1"):
+                if L["final_at"] is not None:
+                    bad.append(f"event {i}: final CAS on {a} after it was already final")
+                L["final_at"], L["final_by"] = i, tid
+            elif L["final_at"] is not None and tid == L["final_by"]:
+                L["touch"].append((i, tid, kind))
+        elif kind == "dead":
+            a = args[0]
+            L = life.pop(a, None)
+            if L:
+                for (j, t, k) in L["touch"]:
+                    if t != tid:      # the owner itself may of course look at its own signal (e.g. it closed the channel)
+                        bad.append(f"event {j}: {t} touches signal {a} ({k}) after its own final store (event {L['final_at']}); owner is {tid}")
+    return bad[:3]
+
+
 ALL_MONITORS = {
+    "orderings": lambda run, ctx: mon_orderings(run, ctx["ords"]),
+    "peerproto": lambda run, ctx: mon_peer_protocol(run),
     "disconnect": lambda run, ctx: mon_disconnect(run),
     "stuck": lambda run, ctx: mon_stuck(run, ctx["cap"]),
     "mutex": lambda run, ctx: mon_mutex(run, ctx["ords"]),
